@@ -81,6 +81,7 @@ type GhostVar struct {
 // assignment to the named local variable (inside loop N when given).
 type GhostUpdate struct {
 	OnCall string // "oncall <callee>: name = expr": executed at every call of callee (before its effect)
+	After  bool   // "aftercall <callee>: name = expr": executed after the call; results are ret0, ret1, ...
 	Local string
 	Loop  int
 	Name  string
@@ -121,7 +122,7 @@ var tagRe = regexp.MustCompile(`^\[([A-Za-z0-9_, ]+)(?::([A-Za-z0-9_\-\.]+))?\]\
 var keywords = map[string]bool{
 	"func": true, "props": true, "requires": true, "ensures": true, "modifies": true,
 	"loop": true, "invariant": true, "decreases": true, "inline": true, "trusted": true,
-	"pure": true, "unroll": true, "spec": true, "package": true, "noterm": true, "assert": true, "axiom": true, "lemma": true, "callsite": true, "ghost": true, "onassign": true, "oncall": true,
+	"pure": true, "unroll": true, "spec": true, "package": true, "noterm": true, "assert": true, "axiom": true, "lemma": true, "callsite": true, "ghost": true, "onassign": true, "oncall": true, "aftercall": true,
 }
 
 // LoadFile parses a contract file. pkgPath is the default package path
@@ -315,12 +316,12 @@ func (cs *Contracts) LoadFile(path string, pkgPath string, external bool) error 
 				}
 				gu.E = e
 				cur.GhostUps = append(cur.GhostUps, gu)
-			case "oncall":
+			case "oncall", "aftercall":
 				i := strings.Index(rest, ":")
 				if i < 0 {
 					return errf("oncall needs '<callee>: name = expr'")
 				}
-				gu := &GhostUpdate{OnCall: strings.TrimSpace(rest[:i]), Text: rest}
+				gu := &GhostUpdate{OnCall: strings.TrimSpace(rest[:i]), Text: rest, After: w == "aftercall"}
 				as := strings.SplitN(rest[i+1:], "=", 2)
 				if len(as) != 2 {
 					return errf("oncall needs an assignment")
